@@ -61,6 +61,14 @@ func (pConn *PFCPConn) HandlePFCPMsg(buf []byte) {
 		err   error
 	)
 
+	// One message must not take the agent down: the IE accessors of go-pfcp slice into
+	// payloads whose length fields they do not always check (e.g. SDF Filter, PFD Contents).
+	defer func() {
+		if r := recover(); r != nil {
+			logger.PfcpLog.Errorf("dropping PFCP message after panic while handling it: %v", r)
+		}
+	}()
+
 	msg, err := message.Parse(buf)
 	if err != nil {
 		logger.PfcpLog.Errorf("ignoring undecodable message: %v, error: %v", buf, err)
